@@ -41,7 +41,7 @@ CFG = {'streams': [{'name': 'C07',
          'without quantifier ANY gap, also none - `global x="a"`, `global x;c`, `global x(module) ...`, `global x` at the end of the input - except '
          'that a following identifier character or `?` `*` `+` is kept apart: layouts the repaired parse_quantifier accepts, tags global-name-glued '
          '/ global-name-then-comment / global-name-at-eof / global:name-then-eq / global:quant-then-eq); optional trailing comma in non-empty '
-         'list/set literals. Every run starts with 13 hand-written valid texts (FIXED_VALID, tag src:fixed: `global x="a"`, `global x;c`, `global x= '
+         'list/set literals. Every run starts with 14 hand-written valid texts (FIXED_VALID, tag src:fixed: a `node` statement scoped on a string constant with U+00A0, U+2028 (escaped by <str as Debug>) and é (verbatim), whose text field needs the x_print table; `global x="a"`, `global x;c`, `global x= '
          '"a"`, `global x?="a"`, `global x` directly followed by a newline / a comment / a stanza / the end of the file). Texts <= 1500 characters. '
          'non-trivial = parses, contains a comment or a multi-byte character and at least 3 statements; distinct by hash of the text. stream C05p: '
          'up to 2/5 hand-written edge cases (empty / whitespace-only / comment-only input, `global x` followed by every character class (incl. the '
@@ -79,7 +79,7 @@ CFG = {'streams': [{'name': 'C07',
  'assumptions': ['tree-sitter (Query::new on each stanza query + "@__tsg__full_match" and on the merged source), Regex::new and '
                  'char::is_alphabetic/is_alphanumeric/is_whitespace on non-ASCII characters are externals of the model; the harness records their '
                  'answers per case, found by an untrusted structure-only port of parser.rs; a missing answer is verdict 5, never an agreement',
-                 'the Display text of `node` statements is not produced by the parser and is erased on both sides',
+                 'the text field of `node` statements (Display of the variable: the real AST has no such field, dump.rs writes format!("{}", node) into it; the parser model fills it with display_variable) is COMPARED; <str as Debug> on non-ASCII characters is an external of the model (table x_print, recorded per case for every non-ASCII character of the text; a missing row is ORACLE_MISS)',
                  'HashSet/HashMap contents (inherited names, shorthands) are compared in sorted order',
                  'replay: the record holds the text and (AST-directed cases) the Debug text of the intended AST, which is compared again on replay'],
  'partial': ['none of the listed theorems is partial: parse_render_file is proved for whole files. Stated limits of its hypotheses (not weakenings '
@@ -94,8 +94,8 @@ CFG = {'streams': [{'name': 'C07',
              'written), and WfQuery for the stanza that may follow: its query text does not begin with `=` `,` `.` (after `global x` a `=` would '
              'start the default in ANY layout - not whitespace sensitivity -, the other two would continue an attribute list / a scoped variable of '
              'a preceding shorthand), with a top-level keyword, whitespace or `;`; (c) shorthand names may repeat (the result is then the map '
-             'file_of_items computes: the later definition wins), the `vtext` of node statements (Display text, not parser output) is [] in the '
-             'model and erased in the comparison',
+             'file_of_items computes: the later definition wins), the text field of a written `node` statement must be the Display text of its variable (WfStmt: t = '
+             'display_variable v; it is what the parser model returns and what the stream compares)',
              'hypothesis UnicodeSane (whitespace characters are not identifier characters) is about the external Unicode tables; it is checked on '
              'the table of every correspondence case (uni_sane, a violation is ORACLE_MISS); hypotheses queries_ok / x_merged of parse_render_file '
              'are what tree-sitter answers, recorded per case']}
